@@ -205,6 +205,27 @@ func checkC13(c *hx.Checker) {
 	ew, _ := ref.Unary("Relu", wInit)
 	jobs = append(jobs, job{newModelCase(mi, map[string]*ref.T{"a": good["a"]}, "outputs", map[string]*ref.T{"y_a": ea, "y_w": ew}, hx.Num, ""), "init-input/not-supplied", []string{"initializer-input"}, true})
 	jobs = append(jobs, job{newModelCase(mi, map[string]*ref.T{}, "error", nil, hx.Num, ""), "init-input/required-missing", []string{"initializer-input", "missing-input"}, true})
+	// symbolic names carry no constraint: two inputs (and two axes of one input) sharing the name "N", and unnamed
+	// dimensions, accept different sizes
+	{
+		g := &onnx.GraphProto{Name: "g"}
+		N := hx.DimSpec{Param: "N"}
+		g.Input = append(g.Input, hx.ValueInfo("p", ref.F32, []hx.DimSpec{N, {Fixed: 2}}), hx.ValueInfo("q", ref.F32, []hx.DimSpec{N, N}), hx.ValueInfo("r", ref.F32, []hx.DimSpec{{}, {}}), hx.ValueInfo("s", ref.F32, []hx.DimSpec{{EmptyParam: true}, {EmptyParam: true}}))
+		for _, n := range []string{"p", "q", "r", "s"} {
+			g.Node = append(g.Node, hx.Node("Relu", []string{n}, []string{"y_" + n}, nil))
+			g.Output = append(g.Output, hx.ValueInfoNoShape("y_"+n))
+		}
+		mb := hx.Marshal(hx.Model(g, 13))
+		for _, sz := range [][4][2]int{{{1, 2}, {1, 1}, {1, 1}, {1, 1}}, {{3, 2}, {2, 5}, {2, 3}, {3, 1}}, {{2, 2}, {4, 4}, {1, 7}, {5, 6}}, {{5, 2}, {3, 3}, {3, 3}, {3, 3}}} {
+			feed, exp := map[string]*ref.T{}, map[string]*ref.T{}
+			for i, n := range []string{"p", "q", "r", "s"} {
+				feed[n] = ref.Distinct(ref.F32, []int{sz[i][0], sz[i][1]})
+				e, _ := ref.Unary("Relu", feed[n])
+				exp["y_"+n] = e
+			}
+			jobs = append(jobs, job{newModelCase(mb, feed, "outputs", exp, hx.Num, ""), fmt.Sprintf("shared-symbolic-names/%v", sz), []string{"multi", "shared-symbolic-name"}, true})
+		}
+	}
 	// an initializer-backed input is validated against its DECLARATION (here [N,3]; the default has 2 rows), not
 	// against the default's shape: other row counts are accepted, a wrong fixed dim or rank is refused
 	{
